@@ -175,6 +175,7 @@ pub fn run_leg(cfg: &RunCfg, leg_idx: usize, leg: &Leg, stats: &mut Stats) -> Ou
                             Err(wf) if !wf.inconclusive => {
                                 let mut replay = replay_json(&id, leg_name, &wf.fail, &minimal.start, &wf.trace, opts.profile, seed, shard);
                                 replay["follow_norep"] = json!(opts.follow_norep);
+                                replay["play_on"] = json!(opts.play_on);
                                 Some(Ok(Violation { replay, fail: wf.fail }))
                             }
                             _ => Some(Err("shrunk case did not fail when re-run (non-deterministic check?)".to_string())),
@@ -222,7 +223,7 @@ pub fn replay_game(v: &Value, mk: fn() -> Box<dyn Obs>) -> Result<Option<Fail>, 
     };
     let has_branch = v["branch"].as_array().map(|a| !a.is_empty()).unwrap_or(false);
     let inject = if has_branch { crate::drive::Inject::No } else { inject };
-    let opts = WalkOpts { profile, expand: None, follow_norep: v["follow_norep"].as_bool().unwrap_or(false), inject, interfere: false };
+    let opts = WalkOpts { profile, expand: None, follow_norep: v["follow_norep"].as_bool().unwrap_or(false), inject, interfere: false, play_on: v["play_on"].as_bool().unwrap_or(false) };
     let mut obs = mk();
     let mut st = Stats::default();
     // main line
